@@ -118,11 +118,11 @@ impl Type {
                     })
                     .collect();
                 match nearest[..] {
-                    [] => None,
                     [class_id] => {
                         Some(Self::Record(class_id, symbol_map.record(class_id).name.clone()))
                     }
-                    // a record of several classes: there is no single type for that
+                    // a record of several classes, or of no class in particular (two records need
+                    // no class in common): there is no single type for that
                     _ => Some(Self::Unknown),
                 }
             }
